@@ -1385,16 +1385,11 @@ namespace avel {
         _mm_mask_storeu_epi16(ptr, mask, decay(v));
 
         #elif defined(AVEL_SSE2)
-        auto undef = _mm_undefined_si128();
-        auto full = _mm_cmpeq_epi8(undef, undef);
+        // maskmovdqu may fault on masked-off bytes that lie in an inaccessible page
+        alignas(16) unsigned char buffer[16];
+        _mm_store_si128(reinterpret_cast<__m128i*>(buffer), decay(v));
+        std::memcpy(ptr, buffer, sizeof(std::int16_t) * min(n, vec8x16i::width));
 
-        auto w = vec8x16u::width;
-        auto h = vec8x16u::width / 2;
-
-        auto lo = _mm_srl_epi64(full, _mm_cvtsi64_si128(16 * (h - min(h, n))));
-        auto hi = _mm_srl_epi64(full, _mm_cvtsi64_si128(16 * (w - min(w, n))));
-        auto mask = _mm_unpacklo_epi64(lo, hi);
-        _mm_maskmoveu_si128(decay(v), mask, reinterpret_cast<char *>(ptr));
         #endif
 
         #if defined(AVEL_NEON)
